@@ -54,6 +54,8 @@ var c08Variants = []struct{ name, text string }{
 	{"requires-b", "local m = require(\"b\")\nprint(m)\n"},
 	// only used by the edit/save cycles (the general alphabets take the first six variants)
 	{"empty", ""},
+	{"unused-local-below-two-blank-lines", "\n\nlocal u = 1\n"},
+	{"reads-h", "print(h)\n"},
 }
 
 type c08Event struct {
@@ -503,7 +505,7 @@ func init() {
 			// edit/save cycles on one open document: deeper histories over a five-event alphabet
 			cyc := c08Init{name: "b-open(syntax-error-on-disk)-edit-save-cycles", st: c08State{disk: [2]int{4, 1}, buf: [2]int{-1, -1}},
 				pre:   []c08Event{{"open", 1, 0}},
-				alpha: []c08Event{{"change", 1, 0}, {"change", 1, 1}, {"change", 1, 2}, {"change", 1, 6}, {"save", 1, 0}, {"save-unwatched", 1, 0}}}
+				alpha: []c08Event{{"change", 1, 0}, {"change", 1, 1}, {"change", 1, 2}, {"change", 1, 6}, {"change", 1, 7}, {"save", 1, 0}, {"save-unwatched", 1, 0}}}
 			// a.lua (reads g) is open from the start, b.lua defines g: edits of b that are discarded by a close, deletions and
 			// re-creations of b are judged through the queries asked in a.lua
 			aopen := c08Init{name: "a-open-reads-g,b-defines-g", st: c08State{disk: [2]int{4, 3}, buf: [2]int{-1, -1}}, pre: []c08Event{{"open", 0, 0}}}
@@ -512,9 +514,15 @@ func init() {
 			} else {
 				sp = append(sp, c08Space(flat, aopen, 2, 6), c08Space(flat, aopen, 3, 6))
 			}
+			// a diagnostic whose text changes while its type and range stay (print(g) <-> print(h)), by edits and by events
+			msg := c08Init{name: "a-reads-g(message-only-changes)", st: c08State{disk: [2]int{4, -1}, buf: [2]int{-1, -1}},
+				alpha: []c08Event{{"extchange", 0, 4}, {"extchange", 0, 8}, {"open", 0, 0}, {"close", 0, 0}, {"change", 0, 4}, {"change", 0, 8}, {"save", 0, 0}, {"save-unwatched", 0, 0}}}
+			for d := 1; d <= 4; d++ {
+				sp = append(sp, c08Space(flat, msg, d, 3))
+			}
 			cd := 5
 			if tier == "thorough" {
-				cd = 7
+				cd = 6
 			}
 			for d := 4; d <= cd; d++ {
 				sp = append(sp, c08Space(flat, cyc, d, 3))
